@@ -857,6 +857,13 @@ func (it *Interp) eval(e ast.Expr, env *Env) Value {
 			return int64(b[i])
 		case *Unknown:
 			return &Unknown{"index of " + b.why}
+		case Nil:
+			// reading a nil map yields the zero value
+			if tv, ok := it.info.Types[x.X]; ok {
+				if _, isMap := tv.Type.Underlying().(*types.Map); isMap {
+					return it.zero(it.info.Types[e].Type)
+				}
+			}
 		}
 		it.fail(e, "index on %s", describe(base))
 	case *ast.SliceExpr:
@@ -1488,7 +1495,11 @@ func (it *Interp) sparseMembers(x *ast.RangeStmt, env *Env, n int64) ([]rune, bo
 	if !ok || is.Init != nil || is.Else != nil {
 		return nil, false
 	}
-	call, ok := is.Cond.(*ast.CallExpr)
+	cond := is.Cond
+	if be, ok := cond.(*ast.BinaryExpr); ok && be.Op == token.LAND {
+		cond = be.X // S.Has(d) && …: still only members of S can have an effect
+	}
+	call, ok := cond.(*ast.CallExpr)
 	if !ok || len(call.Args) != 1 {
 		return nil, false
 	}
